@@ -1,5 +1,7 @@
 package zz
 
+import "os"
+
 // Native bodies of the lock-discipline API (C19). The lockset analysis only
 // exists in the symbolic engine; natively these are no-ops and the harness
 // confirms a finding by running the operations concurrently under the race
@@ -15,3 +17,7 @@ func GuardStats() int                       { return 0 }
 func WatchShared(p any, name string)        {}
 func SharedWriteViolations() int            { return 0 }
 func SharedWriteText() string               { return "" }
+
+// Confirming reports whether this native run replays a counterexample candidate (as opposed to a
+// covering model used for translation validation); confirmation runs may afford heavier concurrent stress.
+func Confirming() bool { return os.Getenv("ZZ_CONFIRM") != "" }
